@@ -13,25 +13,11 @@ From Plenc Require Import Base Varint Wire VarintProofs WireProofs GoSem JsonAny
 From PlencGen Require Import GenCore CoreEquiv GenStruct.
 Open Scope N_scope.
 
-Definition lift_dec (r : res (val * N)) : res (gval * Z) :=
-  match r with
-  | Ok (v, n) => Ok (v, Z.of_N n)
-  | Err => Err | Panic s => Panic s | Hang s => Hang s | Blowup s => Blowup s
-  end.
-
 Definition lift_struct (r : res (list val * N)) : res (gval * Z) :=
   match r with
   | Ok (vs, n) => Ok (VStruct vs, Z.of_N n)
   | Err => Err | Panic s => Panic s | Hang s => Hang s | Blowup s => Blowup s
   end.
-
-(** the method table of a model codec *)
-Definition gcodec_of (c : codec) : gcodec :=
-  mkgcodec (omit c)
-           (fun v tag => Z.of_N (size c v tag))
-           (fun _ data v tag => Ok (data ++ enc c v tag))
-           (fun _ data v wt => lift_dec (dec c data (Z.to_N wt) v))
-           (Z.of_N (wire c)).
 
 (** [fieldsByIndex] agrees with the decoder table: an index the table knows has
     its method table and slot at that position, any other index is beyond the
